@@ -1272,6 +1272,21 @@ func (lw *lowerer) stmt(st ast.Stmt) (string, bool) {
 			return "", false
 		}
 		return pre + r, true
+	case *ast.DeclStmt:
+		// var x T = <expression with helper calls> (the form argument bindings of an earlier round have)
+		gd, ok := x.Decl.(*ast.GenDecl)
+		if !ok || gd.Tok != token.VAR || len(gd.Specs) != 1 {
+			return "", false
+		}
+		vs, ok := gd.Specs[0].(*ast.ValueSpec)
+		if !ok || len(vs.Names) != 1 || len(vs.Values) != 1 || !containsHelper(lw, vs.Values[0]) {
+			return "", false
+		}
+		pre, r, ok := lw.expr(vs.Values[0])
+		if !ok {
+			return "", false
+		}
+		return pre + string(lw.src[lw.off(x.Pos()):lw.off(vs.Values[0].Pos())]) + r, true
 	case *ast.SwitchStmt:
 		if x.Init != nil {
 			return "", false
